@@ -11,7 +11,7 @@ for p in props:
     pid = p["id"]
     path = os.path.join(ROOT, "mc", "props", pid.lower() + ".py")
     m = meta.get(pid, {})
-    if os.path.exists(path) and not m.get("disabled"):
+    if os.path.exists(path) and pid in meta and not m.get("disabled"):
         src = open(path).read()
         level = re.search(r'^LEVEL\s*=\s*"(\w+)"', src, re.M).group(1)
         checks.append(dict(
